@@ -7,11 +7,11 @@
 (* source bodies.  One TLC state per left operand (the right operands are  *)
 (* enumerated inside the action); slices run as separate TLC processes.    *)
 (*   MODE  = "addsub" | "mul" | "div" | "rem" | "new" | "nov" | "frac" |   *)
-(*           "wide" | "cmp"                                                *)
+(*           "wide" | "cmp" | "expflow" | "expflow_old" | "quadrant"       *)
 (* A violated contract makes the invariant NoBad fail; the counterexample  *)
 (* state carries the operands and the violated clauses.                    *)
 (***************************************************************************)
-EXTENDS AlgArith, ContractsConv, SmallFormat, IOUtils, FiniteSets
+EXTENDS AlgFlow, ContractsConv, SmallFormat, IOUtils, FiniteSets
 
 CONSTANTS MODE, E0, GAP, LOW, WBITS
 
@@ -139,8 +139,15 @@ CheckCmp(a) ==
   { <<"lex_compare", a, b>> : b \in { y \in BSet : LexCmp(a, y) # DCmp(Value(a), Value(y)) \/ LexCmp(y, a) # DCmp(Value(y), Value(a)) } }
   \cup (IF Valid(AAbs(a)) /\ Valid(AAbs(ANeg(a))) /\ DCmp(Value(AAbs(ANeg(a))), DAbs(Value(a))) = 0 THEN {} ELSE {<<"abs", a>>})
 
+\* C14: the exp reduction (both the current and the pinned way of choosing y), all valid x of the window
+CheckExpFlow(x) == UNION { ExpFlowBad(v, ExpSplitY(v)) : v \in {x, ANeg(x)} }
+CheckExpFlowOld(x) == UNION { ExpFlowBad(v, ExpSplitYOld(v)) : v \in {x, ANeg(x)} }
+\* C16: quadrant selection
+CheckQuadrant(x) == UNION { QuadrantBad(v) : v \in {x, ANeg(x)} }
+
 Items ==
   CASE MODE \in {"addsub", "mul", "div", "rem", "new", "cmp"} -> SliceOf(SeqOfSet(ASet))
+    [] MODE \in {"expflow", "expflow_old", "quadrant"} -> SliceOf(SeqOfSet(ValidWithHi({ w \in WordsIn(E0 - GAP, E0 + GAP) : ~w.neg })))
     [] MODE = "frac" -> SliceOf(SeqOfSet(ValidWithHi({ w \in WordsIn(E0 - GAP, E0 + GAP) : ~w.neg })))
     [] MODE = "nov" -> SliceOf(SeqOfSet(AllWords))
     [] MODE = "wide" -> SliceOf([k \in 1..P2(WBITS) |-> k - 1])
@@ -156,6 +163,9 @@ CheckItem(it) ==
     [] MODE = "frac" -> CheckFrac(it)
     [] MODE = "wide" -> CheckWide(it)
     [] MODE = "cmp" -> CheckCmp(it)
+    [] MODE = "expflow" -> CheckExpFlow(it)
+    [] MODE = "expflow_old" -> CheckExpFlowOld(it)
+    [] MODE = "quadrant" -> CheckQuadrant(it)
 
 Init == i = 0 /\ bad = {} /\ cnt = 0
 Next == /\ i < Len(ItemSeq)
